@@ -166,6 +166,64 @@ def rule_independent(run, F, cfg):
            "BlockerResult.redirect is produced by ResourceStorage::get_redirect_resource", config=cfg)
 
 
+def _call_parts(e):
+    """("callee", [top-level argument strings]) of a rendered call expression `callee(a, b, ..)`, else None"""
+    i = e.find("(")
+    if i < 0 or not e.endswith(")"):
+        return None
+    depth, args, cur = 0, [], ""
+    for ch in e[i + 1:-1]:
+        if ch in "([{<":
+            depth += 1
+        elif ch in ")]}>":
+            depth -= 1
+        if ch == "," and depth == 0:
+            args.append(cur.strip())
+            cur = ""
+        else:
+            cur += ch
+    if cur.strip():
+        args.append(cur.strip())
+    return e[:i], args
+
+
+def _exception_chain(F, e):
+    """`e` renders collect(<adapters over the redirects probe>): only predicate / mapping adapters, one predicate
+    is exactly is_exception(<element>), the collected value is the element's modifier_option"""
+    parts = _call_parts(re.sub(r"@bb\d+", "", e))
+    if not parts or parts[0] != "std::iter::Iterator::collect" or len(parts[1]) != 1:
+        return False
+    cur = parts[1][0]
+    saw_exc = saw_value = False
+    outermost = True
+    while True:
+        parts = _call_parts(cur)
+        if not parts:
+            return False
+        callee, args = parts
+        if callee in ("core::slice::iter", "std::iter::IntoIterator::into_iter"):
+            return saw_exc and saw_value and "NetworkFilterList::check_all(arg:self.redirects" in args[0]
+        m = re.match(r"^std::iter::Iterator::(filter|filter_map|map)$", callee)
+        mc = re.match(r"^closure\[([^\]]+)\]\(\)$", args[1]) if m and len(args) == 2 else None
+        c = F.fns.get(mc.group(1)) if mc else None
+        if c is None:
+            return False
+        ret = c.expr_local(0)
+        if m.group(1) == "filter":
+            if re.match(r"^filters::network::NetworkFilterMaskHelper::is_exception\(arg:\w+\)$", ret):
+                saw_exc = True
+            else:
+                return False        # any other predicate narrows the cancellation list
+        else:
+            if outermost and re.search(r"arg:\w+\.modifier_option", ret) and "Not(" not in ret:
+                saw_value = True
+            elif not outermost:
+                return False
+        if m.group(1) != "filter":
+            outermost = False
+        cur = args[0]
+
+
 def rule_exceptions(run, F, cfg):
     f = F.fn("blocker::Blocker::check_parameterised")
     with f.sites():
@@ -188,6 +246,16 @@ def rule_exceptions(run, F, cfg):
         if not (has_cond(c, r"::is_exception\(", 1) and "modifier_option" in val):
             ok_push = False
         exc_site = site
+    if not pushes:
+        # the same list written as an iterator chain:
+        #   redirect_filters.iter().filter(|f| f.is_exception()).filter_map(|f| f.modifier_option.as_ref()).collect()
+        with f.sites():
+            for b, t in f.calls(r"::contains$"):
+                tgt = re.sub(r"@bb\d+", "", f.expr_operand(t["args"][0]))
+                if tgt.startswith("std::iter::Iterator::collect("):
+                    ok_push = _exception_chain(F, tgt)
+                    exc_site = "chain"
+                    contains.append((b, "chain", f.expr_operand(t["args"][1])))
     run.ob("C13.3.exception-provenance", "exceptions-filled-from-exceptions", ok_push,
            "the cancellation list is filled only with modifier_option of redirect filters with "
            "is_exception()", site=f.loc(pushes[0][0]) if pushes else "", config=cfg)
